@@ -66,6 +66,29 @@ class SimClock:
         return t
 
     # the rest of the `time` module surface the repo might touch
+    def time_ns(self):
+        return int(self.time() * 1e9)
+
+    def gmtime(self, secs=None):
+        import time as _t
+        return _REAL['gmtime'](self.time() if secs is None else secs)
+
+    def localtime(self, secs=None):
+        # the simulated machine runs on UTC
+        return _REAL['gmtime'](self.time() if secs is None else secs)
+
+    def strftime(self, fmt, t=None):
+        return _REAL['strftime'](fmt, self.gmtime() if t is None else t)
+
+    def asctime(self, t=None):
+        return _REAL['asctime'](self.gmtime() if t is None else t)
+
+    def ctime(self, secs=None):
+        return _REAL['asctime'](self.gmtime(secs))
+
+    def process_time(self):
+        return self.time() - self.start
+
     def perf_counter(self):
         return self.time()
 
@@ -78,6 +101,62 @@ class SimClock:
     @property
     def elapsed(self):
         return abs(self.now - self.start)
+
+
+import time as _time_mod
+_REAL = {k: getattr(_time_mod, k) for k in ('gmtime', 'strftime', 'asctime', 'time')}
+
+
+def patch_process_clock(clock, host='simhost', pid=None, cpus=None):
+    """Inside a simulated child process every clock a program could read is
+    the simulated one: the `time` module functions and datetime.now()/today()
+    are replaced process-wide (the harness itself does not read clocks in
+    these children), and the identity of the machine/process is seeded."""
+    import os
+    import socket
+    import platform
+    import datetime as dtm
+    for name in ('time', 'time_ns', 'gmtime', 'localtime', 'strftime', 'asctime', 'ctime',
+                 'perf_counter', 'monotonic', 'process_time'):
+        setattr(_time_mod, name, getattr(clock, name))
+
+    class SimDateTime(dtm.datetime):
+        @classmethod
+        def now(cls, tz=None):
+            return cls.fromtimestamp(clock.time(), dtm.timezone.utc).replace(tzinfo=tz)
+
+        @classmethod
+        def utcnow(cls):
+            return cls.fromtimestamp(clock.time(), dtm.timezone.utc).replace(tzinfo=None)
+
+        @classmethod
+        def today(cls):
+            return cls.now()
+
+    class SimDate(dtm.date):
+        @classmethod
+        def today(cls):
+            d = SimDateTime.now()
+            return cls(d.year, d.month, d.day)
+
+    dtm.datetime = SimDateTime
+    dtm.date = SimDate
+    socket.gethostname = lambda: host
+    platform.node = lambda: host
+    if cpus:
+        # how many CPUs the process may use is a property of the machine /
+        # container / taskset the user happens to be in
+        import multiprocessing
+        os.sched_getaffinity = lambda pid=0: set(range(cpus))
+        os.cpu_count = lambda: cpus
+        if hasattr(os, 'process_cpu_count'):
+            os.process_cpu_count = lambda: cpus
+        multiprocessing.cpu_count = lambda: cpus
+        fired('cpu_count_seeded')
+    if pid is not None:
+        os.getpid = lambda: pid
+        os.getppid = lambda: pid - 1
+    fired('process_identity')
 
 
 class _FakeDatetime:
